@@ -9,6 +9,7 @@ store `objs` represent the history `whole`, one section per (sub-)revision; its 
 -/
 import PdfVerif.Lemmas.Xref
 import PdfVerif.Lemmas.XrefBytes
+import PdfVerif.Lemmas.XrefTable
 
 namespace PdfVerif.Props.C02
 
@@ -160,6 +161,106 @@ theorem C02_literals :
     inUseMarker = [110] ∧ fieldSep = 32 ∧ headerFields = 2 ∧ entryFields = 3 ∧
     chainOrder = ["XRefStm", "Prev"] := by
   decide
+
+/-! ## Loaders invert the writers, byte for byte -/
+
+/-- `table_load`: `read_xref_from` + `PDFXRef.load` on the text of ANY classic table
+(any number of subsections, any entries, every EOL style of header and entry lines, `trailer`
+alone or followed by the dictionary on its line) returns exactly the in-use entries written
+— `f` lines skipped, numbering `start + i` — and stops on the `trailer` line. -/
+theorem C02_table_load (pre post : Bytes) (eol : LineEol) (ee : EntEol) (subs : List Sub)
+    (hf : ∀ sb ∈ subs, SubFits sb) (hpost : TrailerLine post) :
+    tableLoad (pre ++ (eol.bytes ++ (renderTable eol ee subs ++ (kwTrailer ++ post)))) pre.length =
+      .ok (insSubs subs [], pre.length + eol.bytes.length + (renderTable eol ee subs).length) :=
+  tableLoad_renderTable pre post eol ee subs hf hpost
+
+/-- …and `get_pos` on the loaded table answers with the last in-use line written for `n`. -/
+theorem C02_table_lookup (subs : List Sub) (n : Nat) :
+    (Section.table (insSubs subs [])).getPos n = specSubs subs (n : Int) none := by
+  simp [Section.getPos, lookup_insSubs, lookupOff]
+
+/-- The `trailer` keyword line as the writer emits it satisfies `TrailerLine`. -/
+theorem C02_trailer_line (eol : LineEol) (mid y : Bytes) (hm : noEol mid) (hy : StartsNonLF y) :
+    TrailerLine (mid ++ (eol.bytes ++ y)) := trailerLine_eol eol mid y hm hy
+
+def flattenRanges : List (Nat × Nat) → List Nat
+  | [] => []
+  | (s, c) :: rest => s :: c :: flattenRanges rest
+
+theorem choplist2_flatten (ranges : List (Nat × Nat)) : choplist2 (flattenRanges ranges) = ranges := by
+  induction ranges with
+  | nil => rfl
+  | cons r rest ih => obtain ⟨s, c⟩ := r; simp [flattenRanges, choplist2, ih]
+
+theorem flatten_even (ranges : List (Nat × Nat)) : (flattenRanges ranges).length % 2 = 0 := by
+  induction ranges with
+  | nil => rfl
+  | cons r rest ih => obtain ⟨s, c⟩ := r; simp [flattenRanges]; omega
+
+/-- `stream_load`: `PDFXRefStream.load` + `get_pos` + `get_objids` on the dictionary entries
+`/W [w1 w2 w3]`, `/Index` (any number of ranges) and the encoded rows give back the written rows,
+end to end. -/
+theorem C02_stream_load (size : Nat) (ranges : List (Nat × Nat)) (w1 w2 w3 : Nat) (rows : List Row)
+    (hf : ∀ r ∈ rows, FitsRow w1 w2 w3 r) (hlen : sumCounts ranges ≤ rows.length) :
+    ∃ x, xsLoad size (some (flattenRanges ranges)) [w1, w2, w3] (encodeRows w1 w2 w3 rows) = .ok x ∧
+      (∀ n, x.getPos n = (rowSpec ranges rows n).bind specRowEntry) ∧
+      x.getObjids = objidsSpec ranges rows := by
+  refine ⟨⟨ranges, w1, w2, w3, encodeRows w1 w2 w3 rows⟩, ?_, ?_, ?_⟩
+  · have h := flatten_even ranges
+    simp [xsLoad, choplist2_flatten, h]
+  · intro n
+    rw [C02_xrefstm_entry ranges w1 w2 w3 rows hf hlen n]
+    congr 1
+    funext r
+    exact C02_row_types r
+  · exact C02_xrefstm_objids ranges w1 w2 w3 rows hf hlen
+
+/-- Without `/Index` the rows are those of objects `0 … Size-1`. -/
+theorem C02_stream_load_default (size w1 w2 w3 : Nat) (rows : List Row)
+    (hf : ∀ r ∈ rows, FitsRow w1 w2 w3 r) (hlen : size ≤ rows.length) (n : Nat) :
+    ∃ x, xsLoad size none [w1, w2, w3] (encodeRows w1 w2 w3 rows) = .ok x ∧
+      x.getPos n = (if n < size then rows[n]? else none).bind specRowEntry := by
+  refine ⟨⟨[(0, size)], w1, w2, w3, encodeRows w1 w2 w3 rows⟩, ?_, ?_⟩
+  · simp [xsLoad, defaultIndex, choplist2]
+  · rw [C02_xrefstm_entry [(0, size)] w1 w2 w3 rows hf (by simp [sumCounts]; omega) n]
+    have : rowEntry = specRowEntry := funext C02_row_types
+    rw [this]
+    by_cases h : n < size <;> simp [rowSpec, h]
+
+/-- `hybrid_load` / chaining: from the table of a hybrid revision `read_xref_from` appends the
+table, then the section at `XRefStm`, then the section at `Prev` — and a position met twice
+(circular `Prev`) is not loaded again. -/
+theorem C02_chain_order (ph : Phys) (p1 p2 p3 : Nat) (d1 d2 d3 : SecDesc) (s1 s2 s3 : Section)
+    (root : Option Nat) (info : Option Nat) (fuel : Nat)
+    (h1 : lookupNat ph.secs p1 = some d1) (h2 : lookupNat ph.secs p2 = some d2) (h3 : lookupNat ph.secs p3 = some d3)
+    (l1 : loadSection ph d1 = .ok (s1, ⟨some p3, some p2, root, info⟩))
+    (l2 : loadSection ph d2 = .ok (s2, ⟨none, none, none, none⟩))
+    (l3 : loadSection ph d3 = .ok (s3, ⟨some p1, none, root, info⟩))
+    (d12 : p1 ≠ p2) (d13 : p1 ≠ p3) (d23 : p2 ≠ p3) :
+    (readXrefFrom ph (fuel + 3) p1 ([], [])).map (fun r => r.1.map (·.1)) = .ok [s1, s2, s3] := by
+  have n21 : ¬ p2 = p1 := Ne.symm d12
+  have n31 : ¬ p3 = p1 := Ne.symm d13
+  have n32 : ¬ p3 = p2 := Ne.symm d23
+  simp [readXrefFrom, chainOrder, Trailer.get, h1, h2, h3, l1, l2, l3, List.foldlM, n21, n31, n32, d12, d13, d23,
+    bind, Except.bind, Except.map, pure, Except.pure]
+
+
+/-- Non-vacuity for the loaders: `0 2` (free head, object 1) and `5 1`, CR-only line ends, entries
+ending in space-CR, `trailer` followed by the dictionary on the same line. -/
+def exSubs : List Sub := [⟨0, 1, 1, [⟨0, 65535, false⟩, ⟨15, 0, true⟩]⟩, ⟨5, 2, 1, [⟨70, 3, true⟩]⟩]
+
+example : ∀ sb ∈ exSubs, SubFits sb := by
+  intro sb hsb
+  simp only [exSubs, List.mem_cons, List.not_mem_nil, or_false] at hsb
+  rcases hsb with rfl | rfl <;> simp [SubFits, EntryFits]
+
+example : TrailerLine ([32, 60, 60, 62, 62] ++ (LineEol.cr.bytes ++ [115])) :=
+  C02_trailer_line .cr [32, 60, 60, 62, 62] [115] (by intro b hb; revert b; decide) ⟨115, [], rfl, by decide⟩
+
+example : (match tableLoad ([120, 114, 101, 102] ++ (LineEol.cr.bytes ++ (renderTable .cr .spCr exSubs ++
+      (kwTrailer ++ ([32, 60, 60, 62, 62] ++ (LineEol.cr.bytes ++ [115])))))) 4 with
+    | .ok (offs, tpos) => offs == [((1 : Int), (⟨none, 15, 0⟩ : Entry)), (5, ⟨none, 70, 3⟩)] && tpos == 4 + 1 + 69
+    | .error _ => false) = true := by decide
 
 /-! ## Locating `startxref`: independence of the read-buffer size -/
 
